@@ -441,6 +441,49 @@ def exec_place_one(case, obs):
     obs.outcome = digest(got)
 
 
+def template_grey(n, variant):
+    """Smooth grey-valued density (two anisotropic Gaussian lobes, values in (0, 1)), decayed below 0.01 at the faces."""
+    g = np.stack(np.meshgrid(*[np.arange(n, dtype=float)] * 3, indexing="ij"), axis=-1) - n // 2
+    a = np.exp(-((g[..., 0] / 2.2) ** 2 + (g[..., 1] / 1.1) ** 2 + (g[..., 2] / 1.4) ** 2))
+    c2 = np.array([1.5, -1.0, 1.0]) if variant == 0 else np.array([-1.0, 1.5, -1.5])
+    b = 0.6 * np.exp(-(((g - c2) ** 2).sum(axis=-1)) / 1.2)
+    return np.clip(a + b, 0.0, 1.0)
+
+
+def exec_place_grey(case, obs):
+    """A grey-valued template at a generic orientation: the stamp is the ROTATED density thresholded (not the thresholded
+    template rotated).  The rotated density comes from cryomap.rotate with the particle's own angles (the convention link is
+    the subject of family link-motl-map); voxels whose rotated value is within 0.02 of the threshold are not judged."""
+    from cryocat import cryomap
+
+    n, variant, angles, form, seed = case
+    field = "geom1"
+    dim = (2 * n, 2 * n + 1, 2 * n + 2)
+    pos0 = (n, n, n + 1)
+    rows = [particle_row(0, angles, pos0, SPLITS[(variant + n) % 3], seed)]
+    t = template_grey(n, variant)
+    templates = [t.copy()] if form.startswith("list") else t.copy()
+    container, got = call_place(obs, templates, rows, field, form, dim, seed)
+    rot = np.asarray(obs.lib("cryomap.rotate", cryomap.rotate, t.copy(), rotation_angles=list(angles)), dtype=float)
+    lo = tuple(p - n // 2 for p in pos0)
+    sl = tuple(slice(a, a + n) for a in lo)
+    region = np.asarray(got)[sl]
+    stamped = region != container[sl]
+    must = rot > 0.12
+    mustnot = rot < 0.08
+    obs.nontrivial = bool(must.any() and (mustnot & (t > 0.1)).any() or must.any())
+    obs.check(bool(stamped[must].all()), "place_object", "stamped-voxel-set",
+              lambda: f"grey template {n}^3 angles {angles}: {int((~stamped[must]).sum())} voxels with rotated density > 0.12 were not stamped", "grey-template")
+    obs.check(not bool(stamped[mustnot].any()), "place_object", "stamped-voxel-set",
+              lambda: f"grey template {n}^3 angles {angles}: {int(stamped[mustnot].sum())} voxels stamped where the rotated density is below 0.08 (max {float(rot[mustnot & stamped].max()):.3f})", "grey-template")
+    outside = np.ones(dim, dtype=bool)
+    outside[sl] = False
+    obs.check(bool(np.array_equal(np.asarray(got)[outside], container[outside])), "place_object", "background-kept", "voxels outside the template box changed", "grey-template")
+    vals = np.unique(region[stamped])
+    obs.check(len(vals) <= 1 and (len(vals) == 0 or vals[0] == rows[0][field]), "place_object", "stamp-colour", lambda: f"stamped values {vals[:4]} vs {rows[0][field]}", "grey-template")
+    obs.outcome = (int(stamped.sum()), digest(got))
+
+
 OVERLAP_OFFSETS = [(0, 0, 0), (1, 0, 0), (0, -1, 1)]
 
 
@@ -579,6 +622,50 @@ def exec_window(case, obs):
 
 def centres(dim):
     return [x / 2.0 for x in range(-6, 2 * (dim + 3) + 1)]
+
+
+def exec_rot_nosource(case, obs):
+    """Rotation moves density, it does not create any: an output voxel whose pre-image lies well outside the box (under
+    the rotation AND under its inverse, so the clause does not depend on the convention) has no source and stays 0,
+    also when the map is non-zero right up to its faces; deep inside a constant map stays that constant."""
+    from cryocat import cryomap
+
+    shape, angles, kind, seed = case
+    R = so3.zxz(*angles)
+    c = np.array([s // 2 for s in shape], dtype=float)
+    if kind == "constant":
+        vol = np.full(shape, 1.0 + 0.25 * seed)
+    else:   # bright slabs on all six faces, dark inside
+        vol = np.zeros(shape)
+        for ax in range(3):
+            sl = [slice(None)] * 3
+            for face in (0, -1):
+                sl[ax] = face
+                vol[tuple(sl)] = 2.0 + seed
+    got = np.asarray(obs.lib("cryomap.rotate", cryomap.rotate, vol.copy(), rotation_angles=list(angles)), dtype=float)
+    if not obs.check(got.shape == tuple(shape), "cryomap.rotate", "rotate-shape", f"{got.shape} vs {shape}"):
+        return
+    idx = np.stack(np.meshgrid(*[np.arange(s) for s in shape], indexing="ij"), axis=-1).reshape(-1, 3).astype(float)
+    hi = np.array(shape, dtype=float) - 1.0
+    def outside_by(P, m):
+        return np.any((P < -m) | (P > hi + m), axis=1)
+    def inside_by(P, m):
+        return np.all((P >= m) & (P <= hi - m), axis=1)
+    pa = (idx - c) @ R + c        # R^T (w - c) + c
+    pb = (idx - c) @ R.T + c      # R (w - c) + c
+    nosrc = (outside_by(pa, 2.0) & outside_by(pb, 2.0)).reshape(shape)
+    obs.nontrivial = bool(nosrc.any())
+    if nosrc.any():
+        worst = float(np.abs(got[nosrc]).max())
+        obs.check(worst <= 1e-9, "cryomap.rotate", "no-density-without-source",
+                  lambda: f"shape {shape} angles {angles} ({kind} map): {int((np.abs(got[nosrc]) > 1e-9).sum())} of {int(nosrc.sum())} voxels whose pre-image is more than 2 voxels outside the box hold up to {worst:.4f}",
+                  "map-nonzero-at-faces")
+    if kind == "constant":
+        deep = (inside_by(pa, 4.0) & inside_by(pb, 4.0)).reshape(shape)
+        if deep.any():
+            dev = float(np.abs(got[deep] - vol.flat[0]).max())
+            obs.check(dev <= 1e-6, "cryomap.rotate", "constant-stays-constant-inside", lambda: f"shape {shape} angles {angles}: deviation {dev:.3e} deep inside a constant map", "")
+    obs.outcome = (int(nosrc.sum()), h64(np.round(got, 6).tobytes()))
 
 
 # ----------------------------------------------------------------------------------------------
@@ -763,6 +850,12 @@ def families(tier, seed):
         Family("place-one", one_cases, exec_place_one, describe=d_one, expect=("stamped-voxel-set", "stamp-colour", "background-kept")),
         Family("place-list", list_cases, exec_place_list, describe=d_list, expect=("stamped-voxel-set", "stamp-colour", "later-overwrites-earlier")),
         Family("place-20", many_cases, exec_place_many, describe=d_many, expect=("stamped-voxel-set", "stamp-colour")),
+        Family("place-grey-template", Mapped(Product([10, 12], [0, 1], [(30.0, 40.0, 50.0), (45.0, 0.0, 0.0), (0.0, 33.0, 0.0), (77.0, 120.0, -33.0), (0.0, 0.0, 0.0), (90.0, 90.0, 0.0)],
+                                                    ["single+shape", "list+shape"]), lambda c: c + (seed,)), exec_place_grey,
+               describe=lambda c: {"template_edge": c[0], "template": c[1], "zxz_angles": list(c[2]), "form": c[3]}, expect=("stamped-voxel-set", "stamp-colour", "background-kept")),
+        Family("rotate-no-source", Mapped(Product([(12, 12, 12), (13, 12, 11), (16, 10, 12)], [(45.0, 0.0, 0.0), (0.0, 45.0, 0.0), (30.0, 40.0, 50.0), (77.0, 120.0, -33.0), (10.0, 0.0, 0.0), (0.0, 180.0, 45.0)],
+                                                 ["constant", "face-slabs"]), lambda c: c + (seed,)), exec_rot_nosource,
+               describe=lambda c: {"shape": list(c[0]), "zxz_angles": list(c[1]), "map": c[2]}, expect=("no-density-without-source", "constant-stays-constant-inside")),
         Family("window", win_cases, exec_window, describe=d_win, expect=("window-voxels", "outside-is-volume-mean", "crop-equals-window", "enforce-shape-window-voxels-kept", "enforce-shape-elsewhere-is-volume-mean", "pad-centres-volume-in-fill")),
         Family("symmetrize-exact", sym_exact, exec_sym_exact, describe=d_syme,
                expect=("equals-mean-of-n-rotated-copies", "independent-of-uninitialised-memory", "total-density-kept")),
